@@ -255,6 +255,12 @@ pub fn run(out: &mut Out, seed: u64, thorough: bool, replay: Option<&str>) {
                             out.run(&mut s, format!("recvraw {} {} {}", addr_s(&from), hex(&(t as u16).to_be_bytes()), rng.pick(&["ok", "err"])));
                         }
                     }
+                    if rng.chance(1, 3) {
+                        // from the right address, an id that differs from the request's by a multiple of 2^16
+                        let k = *rng.pick(&[1u32, 7, 0xFFFF, 0x8000]);
+                        let alias = if rng.chance(1, 2) { t.wrapping_add(k.wrapping_mul(65536)) } else { t.wrapping_sub(k.wrapping_mul(65536)) };
+                        out.run(&mut s, format!("recv {} {} {}", addr_s(&from), alias, rng.pick(&["ok", "err"])));
+                    }
                     out.run(&mut s, format!("recv {} {} {}", addr_s(&from), t, rng.pick(&["ok", "err"])));
                 }
                 5..=6 => {
